@@ -69,31 +69,31 @@ func VC_C16_p1_c6() { vDiff(0xC6, 0xCF, 16, 1) }
 func VC_C16_p1_d0() { vDiff(0xD0, 0xDF, 16, 1) }
 func VC_C16_p1_e0() { vDiff(0xE0, 0xEF, 16, 1) }
 func VC_C16_p1_f0() { vDiff(0xF0, 0xFF, 16, 1) }
-func VC_C16_len00_0() { vDiff(0x00, 0x3F, 0, 0) }
-func VC_C16_len01_0() { vDiff(0x00, 0x3F, 1, 0) }
-func VC_C16_len01_1() { vDiff(0x40, 0x7F, 1, 0) }
-func VC_C16_len01_2() { vDiff(0x80, 0xBF, 1, 0) }
-func VC_C16_len01_3() { vDiff(0xC0, 0xFF, 1, 0) }
-func VC_C16_len02_0() { vDiff(0x00, 0x3F, 2, 0) }
-func VC_C16_len02_1() { vDiff(0x40, 0x7F, 2, 0) }
-func VC_C16_len02_2() { vDiff(0x80, 0xBF, 2, 0) }
-func VC_C16_len02_3() { vDiff(0xC0, 0xFF, 2, 0) }
-func VC_C16_len03_0() { vDiff(0x00, 0x3F, 3, 0) }
-func VC_C16_len03_1() { vDiff(0x40, 0x7F, 3, 0) }
-func VC_C16_len03_2() { vDiff(0x80, 0xBF, 3, 0) }
-func VC_C16_len03_3() { vDiff(0xC0, 0xFF, 3, 0) }
-func VC_C16_len04_0() { vDiff(0x00, 0x3F, 4, 0) }
+func VC_C16_lenq_00_0() { vDiff(0x00, 0x3F, 0, 0) }
+func VC_C16_lenq_01_0() { vDiff(0x00, 0x3F, 1, 0) }
+func VC_C16_lenq_01_1() { vDiff(0x40, 0x7F, 1, 0) }
+func VC_C16_lenq_01_2() { vDiff(0x80, 0xBF, 1, 0) }
+func VC_C16_lenq_01_3() { vDiff(0xC0, 0xFF, 1, 0) }
+func VC_C16_lenq_02_0() { vDiff(0x00, 0x3F, 2, 0) }
+func VC_C16_lenq_02_1() { vDiff(0x40, 0x7F, 2, 0) }
+func VC_C16_lenq_02_2() { vDiff(0x80, 0xBF, 2, 0) }
+func VC_C16_lenq_02_3() { vDiff(0xC0, 0xFF, 2, 0) }
+func VC_C16_lenq_03_0() { vDiff(0x00, 0x3F, 3, 0) }
+func VC_C16_lenq_03_1() { vDiff(0x40, 0x7F, 3, 0) }
+func VC_C16_lenq_03_2() { vDiff(0x80, 0xBF, 3, 0) }
+func VC_C16_lenq_03_3() { vDiff(0xC0, 0xFF, 3, 0) }
+func VC_C16_lenq_04_0() { vDiff(0x00, 0x3F, 4, 0) }
 func VC_C16_len04_1() { vDiff(0x40, 0x7F, 4, 0) }
-func VC_C16_len04_2() { vDiff(0x80, 0xBF, 4, 0) }
-func VC_C16_len04_3() { vDiff(0xC0, 0xFF, 4, 0) }
-func VC_C16_len05_0() { vDiff(0x00, 0x3F, 5, 0) }
+func VC_C16_lenq_04_2() { vDiff(0x80, 0xBF, 4, 0) }
+func VC_C16_lenq_04_3() { vDiff(0xC0, 0xFF, 4, 0) }
+func VC_C16_lenq_05_0() { vDiff(0x00, 0x3F, 5, 0) }
 func VC_C16_len05_1() { vDiff(0x40, 0x7F, 5, 0) }
-func VC_C16_len05_2() { vDiff(0x80, 0xBF, 5, 0) }
-func VC_C16_len05_3c0() { vDiff(0xC0, 0xC3, 5, 0) }
-func VC_C16_len05_3c6() { vDiff(0xC6, 0xCF, 5, 0) }
-func VC_C16_len05_3d0() { vDiff(0xD0, 0xDF, 5, 0) }
-func VC_C16_len05_3e0() { vDiff(0xE0, 0xEF, 5, 0) }
-func VC_C16_len05_3f0() { vDiff(0xF0, 0xFF, 5, 0) }
+func VC_C16_lenq_05_2() { vDiff(0x80, 0xBF, 5, 0) }
+func VC_C16_lenq_05_3c0() { vDiff(0xC0, 0xC3, 5, 0) }
+func VC_C16_lenq_05_3c6() { vDiff(0xC6, 0xCF, 5, 0) }
+func VC_C16_lenq_05_3d0() { vDiff(0xD0, 0xDF, 5, 0) }
+func VC_C16_lenq_05_3e0() { vDiff(0xE0, 0xEF, 5, 0) }
+func VC_C16_lenq_05_3f0() { vDiff(0xF0, 0xFF, 5, 0) }
 func VC_C16_len05_vc4_0() { vDiffVex(0xC4, 0x00, 0x3F, 5, 0) }
 func VC_C16_len05_vc4_1() { vDiffVex(0xC4, 0x40, 0x7F, 5, 0) }
 func VC_C16_len05_vc4_2() { vDiffVex(0xC4, 0x80, 0xBF, 5, 0) }
@@ -102,14 +102,14 @@ func VC_C16_len05_vc5_0() { vDiffVex(0xC5, 0x00, 0x3F, 5, 0) }
 func VC_C16_len05_vc5_1() { vDiffVex(0xC5, 0x40, 0x7F, 5, 0) }
 func VC_C16_len05_vc5_2() { vDiffVex(0xC5, 0x80, 0xBF, 5, 0) }
 func VC_C16_len05_vc5_3() { vDiffVex(0xC5, 0xC0, 0xFF, 5, 0) }
-func VC_C16_len06_0() { vDiff(0x00, 0x3F, 6, 0) }
+func VC_C16_lenq_06_0() { vDiff(0x00, 0x3F, 6, 0) }
 func VC_C16_len06_1() { vDiff(0x40, 0x7F, 6, 0) }
-func VC_C16_len06_2() { vDiff(0x80, 0xBF, 6, 0) }
-func VC_C16_len06_3c0() { vDiff(0xC0, 0xC3, 6, 0) }
-func VC_C16_len06_3c6() { vDiff(0xC6, 0xCF, 6, 0) }
-func VC_C16_len06_3d0() { vDiff(0xD0, 0xDF, 6, 0) }
-func VC_C16_len06_3e0() { vDiff(0xE0, 0xEF, 6, 0) }
-func VC_C16_len06_3f0() { vDiff(0xF0, 0xFF, 6, 0) }
+func VC_C16_lenq_06_2() { vDiff(0x80, 0xBF, 6, 0) }
+func VC_C16_lenq_06_3c0() { vDiff(0xC0, 0xC3, 6, 0) }
+func VC_C16_lenq_06_3c6() { vDiff(0xC6, 0xCF, 6, 0) }
+func VC_C16_lenq_06_3d0() { vDiff(0xD0, 0xDF, 6, 0) }
+func VC_C16_lenq_06_3e0() { vDiff(0xE0, 0xEF, 6, 0) }
+func VC_C16_lenq_06_3f0() { vDiff(0xF0, 0xFF, 6, 0) }
 func VC_C16_len06_vc4_0() { vDiffVex(0xC4, 0x00, 0x3F, 6, 0) }
 func VC_C16_len06_vc4_1() { vDiffVex(0xC4, 0x40, 0x7F, 6, 0) }
 func VC_C16_len06_vc4_2() { vDiffVex(0xC4, 0x80, 0xBF, 6, 0) }
@@ -118,14 +118,14 @@ func VC_C16_len06_vc5_0() { vDiffVex(0xC5, 0x00, 0x3F, 6, 0) }
 func VC_C16_len06_vc5_1() { vDiffVex(0xC5, 0x40, 0x7F, 6, 0) }
 func VC_C16_len06_vc5_2() { vDiffVex(0xC5, 0x80, 0xBF, 6, 0) }
 func VC_C16_len06_vc5_3() { vDiffVex(0xC5, 0xC0, 0xFF, 6, 0) }
-func VC_C16_len08_0() { vDiff(0x00, 0x3F, 8, 0) }
+func VC_C16_lenq_08_0() { vDiff(0x00, 0x3F, 8, 0) }
 func VC_C16_len08_1() { vDiff(0x40, 0x7F, 8, 0) }
-func VC_C16_len08_2() { vDiff(0x80, 0xBF, 8, 0) }
-func VC_C16_len08_3c0() { vDiff(0xC0, 0xC3, 8, 0) }
-func VC_C16_len08_3c6() { vDiff(0xC6, 0xCF, 8, 0) }
-func VC_C16_len08_3d0() { vDiff(0xD0, 0xDF, 8, 0) }
-func VC_C16_len08_3e0() { vDiff(0xE0, 0xEF, 8, 0) }
-func VC_C16_len08_3f0() { vDiff(0xF0, 0xFF, 8, 0) }
+func VC_C16_lenq_08_2() { vDiff(0x80, 0xBF, 8, 0) }
+func VC_C16_lenq_08_3c0() { vDiff(0xC0, 0xC3, 8, 0) }
+func VC_C16_lenq_08_3c6() { vDiff(0xC6, 0xCF, 8, 0) }
+func VC_C16_lenq_08_3d0() { vDiff(0xD0, 0xDF, 8, 0) }
+func VC_C16_lenq_08_3e0() { vDiff(0xE0, 0xEF, 8, 0) }
+func VC_C16_lenq_08_3f0() { vDiff(0xF0, 0xFF, 8, 0) }
 func VC_C16_len08_vc4_0() { vDiffVex(0xC4, 0x00, 0x3F, 8, 0) }
 func VC_C16_len08_vc4_1() { vDiffVex(0xC4, 0x40, 0x7F, 8, 0) }
 func VC_C16_len08_vc4_2() { vDiffVex(0xC4, 0x80, 0xBF, 8, 0) }
@@ -134,14 +134,14 @@ func VC_C16_len08_vc5_0() { vDiffVex(0xC5, 0x00, 0x3F, 8, 0) }
 func VC_C16_len08_vc5_1() { vDiffVex(0xC5, 0x40, 0x7F, 8, 0) }
 func VC_C16_len08_vc5_2() { vDiffVex(0xC5, 0x80, 0xBF, 8, 0) }
 func VC_C16_len08_vc5_3() { vDiffVex(0xC5, 0xC0, 0xFF, 8, 0) }
-func VC_C16_len11_0() { vDiff(0x00, 0x3F, 11, 0) }
+func VC_C16_lenq_11_0() { vDiff(0x00, 0x3F, 11, 0) }
 func VC_C16_len11_1() { vDiff(0x40, 0x7F, 11, 0) }
-func VC_C16_len11_2() { vDiff(0x80, 0xBF, 11, 0) }
-func VC_C16_len11_3c0() { vDiff(0xC0, 0xC3, 11, 0) }
-func VC_C16_len11_3c6() { vDiff(0xC6, 0xCF, 11, 0) }
-func VC_C16_len11_3d0() { vDiff(0xD0, 0xDF, 11, 0) }
-func VC_C16_len11_3e0() { vDiff(0xE0, 0xEF, 11, 0) }
-func VC_C16_len11_3f0() { vDiff(0xF0, 0xFF, 11, 0) }
+func VC_C16_lenq_11_2() { vDiff(0x80, 0xBF, 11, 0) }
+func VC_C16_lenq_11_3c0() { vDiff(0xC0, 0xC3, 11, 0) }
+func VC_C16_lenq_11_3c6() { vDiff(0xC6, 0xCF, 11, 0) }
+func VC_C16_lenq_11_3d0() { vDiff(0xD0, 0xDF, 11, 0) }
+func VC_C16_lenq_11_3e0() { vDiff(0xE0, 0xEF, 11, 0) }
+func VC_C16_lenq_11_3f0() { vDiff(0xF0, 0xFF, 11, 0) }
 func VC_C16_len11_vc4_0() { vDiffVex(0xC4, 0x00, 0x3F, 11, 0) }
 func VC_C16_len11_vc4_1() { vDiffVex(0xC4, 0x40, 0x7F, 11, 0) }
 func VC_C16_len11_vc4_2() { vDiffVex(0xC4, 0x80, 0xBF, 11, 0) }
@@ -150,14 +150,14 @@ func VC_C16_len11_vc5_0() { vDiffVex(0xC5, 0x00, 0x3F, 11, 0) }
 func VC_C16_len11_vc5_1() { vDiffVex(0xC5, 0x40, 0x7F, 11, 0) }
 func VC_C16_len11_vc5_2() { vDiffVex(0xC5, 0x80, 0xBF, 11, 0) }
 func VC_C16_len11_vc5_3() { vDiffVex(0xC5, 0xC0, 0xFF, 11, 0) }
-func VC_C16_len15_0() { vDiff(0x00, 0x3F, 15, 0) }
+func VC_C16_lenq_15_0() { vDiff(0x00, 0x3F, 15, 0) }
 func VC_C16_len15_1() { vDiff(0x40, 0x7F, 15, 0) }
-func VC_C16_len15_2() { vDiff(0x80, 0xBF, 15, 0) }
-func VC_C16_len15_3c0() { vDiff(0xC0, 0xC3, 15, 0) }
-func VC_C16_len15_3c6() { vDiff(0xC6, 0xCF, 15, 0) }
-func VC_C16_len15_3d0() { vDiff(0xD0, 0xDF, 15, 0) }
-func VC_C16_len15_3e0() { vDiff(0xE0, 0xEF, 15, 0) }
-func VC_C16_len15_3f0() { vDiff(0xF0, 0xFF, 15, 0) }
+func VC_C16_lenq_15_2() { vDiff(0x80, 0xBF, 15, 0) }
+func VC_C16_lenq_15_3c0() { vDiff(0xC0, 0xC3, 15, 0) }
+func VC_C16_lenq_15_3c6() { vDiff(0xC6, 0xCF, 15, 0) }
+func VC_C16_lenq_15_3d0() { vDiff(0xD0, 0xDF, 15, 0) }
+func VC_C16_lenq_15_3e0() { vDiff(0xE0, 0xEF, 15, 0) }
+func VC_C16_lenq_15_3f0() { vDiff(0xF0, 0xFF, 15, 0) }
 func VC_C16_len15_vc4_0() { vDiffVex(0xC4, 0x00, 0x3F, 15, 0) }
 func VC_C16_len15_vc4_1() { vDiffVex(0xC4, 0x40, 0x7F, 15, 0) }
 func VC_C16_len15_vc4_2() { vDiffVex(0xC4, 0x80, 0xBF, 15, 0) }
